@@ -903,7 +903,7 @@ COMBOS = [('et', 'dummy'), ('lxml', 'doc'), ('et', 'doc'), ('lxml', 'dummy'), ('
 
 def correspond(run: Run) -> None:
     rng = run.rng
-    ntrees = int(__import__('os').environ.get('C01_NTREES') or run.scale(450, 4500))
+    ntrees = int(__import__('os').environ.get('C01_NTREES') or run.scale(380, 3000))
     per_tree = run.scale(10, 14)
     cases = corpus_cases()
     for t in range(ntrees):
